@@ -42,7 +42,7 @@ ASSUMPTIONS = [
 
 def run(ctx):
     t = ctx.tape
-    w = t.weighted([4, 4, 2, 2, 2, 2], "workload")
+    w = t.weighted([4, 4, 2, 2, 2, 2, 2], "workload")
     if w == 0:
         common.t1_pool(ctx, "proc")
     elif w == 1:
@@ -53,8 +53,10 @@ def run(ctx):
         common.t2_disc_parallel(ctx, use_threading=False, linearize=True)
     elif w == 4:
         doe.p3_parallel_fd(ctx)
-    else:
+    elif w == 5:
         doe.p4_doe_shared_hdf5_cache(ctx)
+    else:
+        common.p5b_one_discipline_many_inputs(ctx)
 
 
 def evidence_extra(pm):
